@@ -1,5 +1,5 @@
 #!/bin/bash
 # Run once after a fresh restore: regenerate Gen/ from /repo and build all Coq clusters offline.
 cd "$(dirname "$0")"
-export PYTHONPATH=/verif/py:/repo PYTHONHASHSEED=0 PYTHONDONTWRITEBYTECODE=1
+export PYTHONPATH="$PWD/py:/repo" PYTHONHASHSEED=0 PYTHONDONTWRITEBYTECODE=1
 exec /venv/bin/python -m vlib.setup
